@@ -165,18 +165,28 @@ Definition mirror (o : cop) : cop :=
 
 Definition tc01 (b : bool) : term := if b then TC 1 else TC 0.
 
+(* comparisons are kept in positive polarity (<, <=, =); the others are their negations, so that a
+   comparison and its inverse share one atom *)
+Definition canon_cmp (o : cop) (a b : term) : term :=
+  match o with
+  | CNe => TNot (TCmp CEq a b)
+  | CGe => TNot (TCmp CLt a b)
+  | CGt => TNot (TCmp CLe a b)
+  | _ => TCmp o a b
+  end.
+
 Definition mk_not (t : term) : term :=
   match t with
   | TC z => tc01 (wrap32 z =? 0)
-  | TCmp o a b => TCmp (negc o) a b
-  | TNot a => if is01 a then a else TCmp CNe a (TC 0)
+  | TCmp o a b => canon_cmp (negc o) a b
+  | TNot a => if is01 a then a else canon_cmp CNe a (TC 0)
   | _ => if is01 t then TNot t else TCmp CEq t (TC 0)
   end.
 
 Definition mk_nz (t : term) : term :=
   match t with
   | TC z => tc01 (negb (wrap32 z =? 0))
-  | _ => if is01 t then t else TCmp CNe t (TC 0)
+  | _ => if is01 t then t else canon_cmp CNe t (TC 0)
   end.
 
 Fixpoint conjuncts (t : term) : list term :=
@@ -221,7 +231,7 @@ Definition mk_cmp (o : cop) (a b : term) : term :=
         match cmp (mirror o) 0 x, cmp (mirror o) 1 x with
         | false, true => b | true, false => mk_not b | true, true => TC 1 | false, false => TC 0
         end
-      else TCmp (mirror o) b a
+      else canon_cmp (mirror o) b a
   | None, Some y =>
       if is01 a then
         match cmp o 0 y, cmp o 1 y with
@@ -235,12 +245,12 @@ Definition mk_cmp (o : cop) (a b : term) : term :=
         else if (y =? 0) && (1 <=? c) && (c <? 1000000) && is_gt_or_ne o && forallb is01 l
                 && (Z.of_nat (length l) <? 1000)
         then TC 1
-        else TCmp o a b
+        else canon_cmp o a b
   | None, None =>
       match o with
       | CGt => TCmp CLt b a
       | CGe => TCmp CLe b a
-      | CEq | CNe => if tleb a b then TCmp o a b else TCmp o b a
+      | CEq | CNe => if tleb a b then canon_cmp o a b else canon_cmp o b a
       | _ => TCmp o a b
       end
   end.
@@ -413,6 +423,12 @@ Qed.
 
 Lemma nz_b2z_negb b : nz (b2z b) = b. Proof. destruct b; reflexivity. Qed.
 
+Lemma canon_cmp_sound o a b : ev (canon_cmp o a b) = b2z (cmp o (ev a) (ev b)).
+Proof.
+  destruct o; cbn [canon_cmp eval]; rewrite ?nz_b2z_negb; try reflexivity;
+    rewrite <- negc_sound; reflexivity.
+Qed.
+
 Lemma mk_not_sound t : ev (mk_not t) = b2z (negb (nz (ev t))).
 Proof.
   assert (G : forall u, ev (if is01 u then TNot u else TCmp CEq u (TC 0)) = b2z (negb (nz (ev u)))).
@@ -420,16 +436,16 @@ Proof.
     unfold nz. rewrite negb_involutive. reflexivity. }
   destruct t; try apply G.
   - cbn [mk_not eval]. rewrite tc01_eval. unfold nz. rewrite negb_involutive. reflexivity.
-  - cbn [mk_not eval]. rewrite negc_sound, nz_b2z_negb. reflexivity.
+  - cbn [mk_not eval]. rewrite canon_cmp_sound, negc_sound, nz_b2z_negb. reflexivity.
   - cbn [mk_not]. destruct (is01 t) eqn:E.
     + cbn [eval]. rewrite nz_b2z_negb, negb_involutive. apply is01_b2z, E.
-    + cbn [eval cmp]. rewrite nz_b2z_negb, negb_involutive. reflexivity.
+    + rewrite canon_cmp_sound. cbn [eval cmp]. rewrite nz_b2z_negb, negb_involutive. reflexivity.
 Qed.
 
 Lemma mk_nz_sound t : ev (mk_nz t) = b2z (nz (ev t)).
 Proof.
-  assert (G : forall u, ev (if is01 u then u else TCmp CNe u (TC 0)) = b2z (nz (ev u))).
-  { intros u. destruct (is01 u) eqn:E; [apply is01_b2z, E | reflexivity]. }
+  assert (G : forall u, ev (if is01 u then u else canon_cmp CNe u (TC 0)) = b2z (nz (ev u))).
+  { intros u. destruct (is01 u) eqn:E; [apply is01_b2z, E | rewrite canon_cmp_sound; reflexivity]. }
   destruct t; try apply G.
   cbn [mk_nz eval]. rewrite tc01_eval. reflexivity.
 Qed.
@@ -601,7 +617,7 @@ Proof.
   - rewrite tc01_eval, (as_const_sound _ _ Ea), (as_const_sound _ _ Eb). reflexivity.
   - rewrite (as_const_sound _ _ Ea). destruct (is01 b) eqn:E.
     + rewrite cmp01_sound by exact E. rewrite mirror_sound. reflexivity.
-    + cbn [eval]. rewrite mirror_sound, (as_const_sound _ _ Ea). reflexivity.
+    + rewrite canon_cmp_sound, mirror_sound, (as_const_sound _ _ Ea). reflexivity.
   - rewrite (as_const_sound _ _ Eb). destruct (is01 a) eqn:E.
     + apply cmp01_sound, E.
     + destruct (summands a) as [l c] eqn:Es.
@@ -635,12 +651,12 @@ Proof.
            destruct o; try discriminate; cbn [eval cmp b2z].
            ++ replace (sum_eval l + c >? 0) with true; [reflexivity|]. symmetry. rewrite Z.gtb_ltb. apply Z.ltb_lt. lia.
            ++ replace (sum_eval l + c =? 0) with false; [reflexivity|]. symmetry. apply Z.eqb_neq. lia.
-        -- cbn [eval]. rewrite (as_const_sound _ _ Eb). reflexivity.
-  - destruct o; cbn [eval]; try reflexivity.
-    + rewrite <- (mirror_sound CGt). reflexivity.
-    + destruct (tleb a b); cbn [eval cmp]; [reflexivity | rewrite Z.eqb_sym; reflexivity].
-    + rewrite <- (mirror_sound CGe). reflexivity.
-    + destruct (tleb a b); cbn [eval cmp]; [reflexivity | rewrite Z.eqb_sym; reflexivity].
+        -- rewrite canon_cmp_sound, (as_const_sound _ _ Eb). reflexivity.
+  - destruct o; try reflexivity.
+    + cbn [eval]. rewrite <- (mirror_sound CGt). reflexivity.
+    + destruct (tleb a b); rewrite canon_cmp_sound; cbn [cmp]; [reflexivity | rewrite Z.eqb_sym; reflexivity].
+    + cbn [eval]. rewrite <- (mirror_sound CGe). reflexivity.
+    + destruct (tleb a b); rewrite canon_cmp_sound; cbn [cmp]; [reflexivity | rewrite Z.eqb_sym; reflexivity].
 Qed.
 
 (* ---- arithmetic *)
